@@ -54,7 +54,10 @@ func (s Stack) Apply(opt *Option, profile string) (string, error) {
 	}
 
 	res := ""
-	for name := range opt.ArgMap {
+	for _, name := range opt.ArgList {
+		if _, ok := opt.ArgMap[name]; !ok {
+			continue // the X flag
+		}
 		stackedProfile := prebuild.RootApparmord.Join(name).MustReadFileAsString()
 		m := regRules.FindStringSubmatch(stackedProfile)
 		if len(m) < 2 {
